@@ -7,20 +7,25 @@ PID = "C11"
 
 CLAIM = dict(
     text="Machine-checked Coq theorems over executable models of both target checks (resolution.rs "
-         "AstResolver::validate_target, exact names, first failure wins; targets.rs validate_target, semver-aware "
+         "AstResolver::validate_target: exact names, first failure wins; targets.rs validate_target: semver-aware "
          "NameMap with shadowing, three-set report): each verdict and each diagnostic is characterised by a "
          "declarative conformance relation (imports within world imports + used interfaces at satisfying types, every "
-         "world export provided at a conforming type); the stand-alone check never panics; the two verdicts "
-         "provably coincide when no two distinct names lie on one semver track and provably differ otherwise "
-         "(refuted with a witness, replayed on the real code as a known finding); for any oracle deciding "
-         "component-model subtyping the resolution verdict is component subtyping of (imports, exports). Tied to "
-         "the code on every run by generated (world, composition) pairs with three real verdicts per pair "
-         "(resolution, stand-alone on the encoded output, wasmparser component subtyping) and synthetic worlds "
-         "through the public validate_target API.",
+         "world export provided at a conforming type; exact or semver name discipline); the stand-alone check never "
+         "panics; the two verdicts provably coincide when no two distinct names lie on one semver track and provably "
+         "differ otherwise (refuted with a witness that is replayed on the real code: known finding), and provably "
+         "coincide on every pair for the repaired resolution check (second model variant, selected from the source "
+         "tree); for any oracle deciding component-model subtyping the resolution verdict is component subtyping of "
+         "(imports, exports). Tied to the code on every run by generated (world, composition) pairs with three real "
+         "verdicts per pair (Document::resolve, validate_target on the encoded output, wasmparser component "
+         "subtyping through wit_component::targets) plus the import/export names read back from the binary, and by "
+         "synthetic worlds through the public validate_target API.",
     design_ref="DESIGN.md §5 C11, §7 item 9",
     note="Trusted: Coq kernel; extraction; OCaml driver; Rust harness (WIT/WAC generators, abstract-description "
-         "dump, subtype oracle computed with the real SubtypeChecker per pair); models Targets.v hand-written and "
-         "validated by correspondence. The subtype checker itself is an oracle here (property C07).",
+         "dump, subtype oracle computed with the real SubtypeChecker per pair); models in Targets.v hand-written and "
+         "validated by correspondence. The subtype checker itself is an oracle here (property C07). Interpretation: "
+         "the reference validator compares names literally, so its verdict is compared with the target verdicts up to "
+         "semver-compatible names (literal subtyping implies acceptance; acceptance implies literal subtyping unless a "
+         "name of the pair matches only through semver compatibility).",
     technique="Coq proof (first-failure scans, NameMap invariant under shadowing inserts, trichotomy of failure "
               "classes) + extracted-model correspondence on generated WIT worlds / WAC compositions")
 
@@ -120,15 +125,15 @@ def desc_names(fields):
                 cexports=nm(fields[4]))
 
 
-def agree(first, rep):
+def agree(first, rep, compat):
+    """same verdict: both accept, or the diagnostic's class contains its name in the report -- the name up to
+    semver compatibility, because the encoder merges semver-compatible imports of several instantiations into one
+    import carrying the highest version (C09), so the output may know the graph's `x:y/q@0.2.0` as `x:y/q@0.2.1`"""
     cls, n = first
     if cls == "OK":
         return rep["ok"]
-    if cls == "INT":
-        return n in rep["nit"]
-    if cls == "MTE":
-        return n in rep["miss"]
-    return n in rep["mm"]
+    pool = rep["nit"] if cls == "INT" else rep["miss"] if cls == "MTE" else rep["mm"]
+    return any(x == n or compat[(n, x)] for x in pool)
 
 
 def pretty_case(recipe, src):
@@ -207,6 +212,9 @@ def run(res, tier, seed, replay):
         f = i.split("\t")
         if len(f) == 5:
             queries |= {(n, x) for n in dn["cimports"] for x in names(f[4].split("|")[0])}
+            fst, rp = parse_first(f[0]), parse_report(f[1])
+            if fst and rp and fst[1] is not None:
+                queries |= {(fst[1], x) for x in rp["nit"] | rp["miss"] | set(rp["mm"])}
         if len(f) == 5 and "|" in f[3] and not f[3].startswith("NOENC"):
             bi, be = (names(x) for x in f[3].split("|"))
             wi, we = (names(x) for x in f[4].split("|"))
@@ -347,7 +355,7 @@ def run(res, tier, seed, replay):
         elif v3 == "PANIC":
             disagreements.append((idx, "wit_component::targets panicked", i, m))
         # (i) against (ii)
-        if not agree(first, rep):
+        if not agree(first, rep, compat):
             cls, n = first
             wit_imports = names(wnames.split("|")[0])
             kid = None
